@@ -542,6 +542,7 @@ fn profile_c07() -> Profile {
     p.plutus = 100;
     p.whale = 350;
     p.boundary_outputs = 150;
+    p.fine_value_limit = 350;
     p
 }
 
